@@ -19,6 +19,7 @@ import (
 	"github.com/dgraph-io/badger/v4/options"
 	"github.com/dgraph-io/badger/v4/vshim/sched"
 	"github.com/dgraph-io/badger/v4/vshim/vlib"
+	"github.com/dgraph-io/badger/v4/vshim/vsync"
 	"github.com/dgraph-io/badger/v4/y"
 )
 
@@ -196,7 +197,16 @@ func (sc *schedScenario) runOne(t *testing.T, j *vlib.Job, prefix []int) *sched.
 			}
 			s.Point(name)
 		}
+		if sc.fine {
+			// fine mode: every lock acquisition in badger code is a schedule point
+			vsync.FineHook = func(op string) {
+				if op == "lock" || op == "rlock" {
+					s.Point("lock")
+				}
+			}
+		}
 		s.Run(sc.threads(x))
+		vsync.FineHook = nil
 		y.VerifPointFn = nil
 		switch {
 		case s.Diverged != "":
